@@ -73,8 +73,10 @@ def ansatz(p, d, par):
 def make_records(case):
     par = case['params']
     recs = []
-    for d in case['distances']:
-        for p in case['rates']:
+    for di, d in enumerate(case['distances']):
+        lo, hi = (case.get('trims') or [[0, 0]] * len(case['distances']))[di]
+        rates_d = case['rates'][lo:len(case['rates']) - hi]
+        for p in rates_d:
             f = ansatz(p, d, par)
             N = case['N']
             nf = int(round(f * N))
@@ -157,6 +159,7 @@ def eval_case(case):
     nt = case['params'][4] != 0 and len(case['distances']) >= 4
     out = {'fails': fails, 'nontrivial': nt,
            'labels': [f"distances={len(case['distances'])}", f"N={case['N']}",
+                      'ragged-grid' if any(t != [0, 0] for t in (case.get('trims') or [])) else 'common-grid',
                       'C=0' if case['params'][4] == 0 else 'C>0'],
            'evals': len(case['layouts'])}
     if aux:
@@ -191,8 +194,14 @@ def cases(draw):
     layouts = [[draw(st.integers(0, 10**6)), draw(st.integers(1, 12))]]
     if draw(st.booleans()):
         layouts.append([draw(st.integers(0, 10**6)), draw(st.integers(1, 12))])
+    # ragged grids: a distance may lack the outermost one or two rates on
+    # either side (every distance keeps >= 7 rates around p_th)
+    trims = [[0, 0]] * len(dist)
+    if nr >= 9 and draw(st.booleans()):
+        room = (nr - 7) // 2
+        trims = [[draw(st.integers(0, room)), draw(st.integers(0, room))] for _ in dist]
     return {'params': [p_th, nu, A, B_raw, C], 'distances': dist, 'rates': rates,
-            'N': N, 'layouts': layouts}
+            'trims': trims, 'N': N, 'layouts': layouts}
 
 
 def run(ctx):
